@@ -85,10 +85,10 @@ CLAIMED = {
 }
 
 NA = {
- "C03": "scalar multiplication = repeated addition needs a discrete-log layer over the C02 contracts (loop invariants over big.Int digit recodings): within the technique's reach but not built in the time available; no check is claimed",
+ "C03": "scalar multiplication = |s|-fold addition is a statement about the group law (associativity, the endomorphism eigenvalue, the lattice basis of the GLV split) over loops that recode a math/big scalar into windows; the function contracts built here decide the single group operations (C02) but not their composition: a contract for the double-and-add loops would have to assume the group axioms, and the GLV / Straus-Shamir / signed-digit variants need number-theoretic facts about the precomputed lattice that no SMT-discharged contract on the code carries. No check is claimed",
  "C04": "the property quantifies over goroutine schedules, channel joins and termination of the bucket method: a function-contract verifier for sequential code cannot state it (sub-obligations on bucket formulas are proved under C02)",
  "C05": "bilinearity and non-degeneracy of the optimal-ate pairing are theorems about divisors; no first-order contract on the Miller loop steps that z3/cvc5 can discharge implies them (tower arithmetic used by the pairing is proved under C06)",
- "C09": "assembly bodies cannot be lowered by go/ssa; the portable Go variants are proved against the same contracts under C01 (both build configurations) but no differential harness for the assembly paths was built, so the property is not claimed",
+ "C09": "the property compares hand-written assembly (ADX/BMI2, AVX-512) with the portable Go code; go/ssa has no model of assembly, so no contract can be put on those bodies. What exists instead is reported under C01, not here: the portable bodies are proved against the contracts, the assembly entry points are ASSUMED to satisfy the same contracts, and the thorough tier runs each assumed assembly routine against its contract on a boundary lattice and random inputs in every alias partition (bounded stand-in, listed as bounded in the C01 evidence, never counted as proved)",
  "C18": "purity/repeatability needs inferred frames for every exported entry point and a treatment of goroutines; only the modifies clauses of the functions under contract are checked (reported under the respective properties), which does not carry the property",
 }
 
